@@ -280,7 +280,8 @@ func checkC17(c *Ctx, r *Report) {
 		okDec, nDec := true, 0
 		complete := enumPaths(sc, 2, 20000, func(p CPath) {
 			ret, isRet := p.Last().(*ssa.Return)
-			if !isRet || ret.Parent() != sc || len(ret.Results) != 2 || !isNilConst(p.Resolve(ret.Results[1])) {
+			// error-free, or possibly so: only a return known to carry an error is exempt
+			if !isRet || ret.Parent() != sc || len(ret.Results) != 2 || c.errOutcome(sc, p) == 1 {
 				return
 			}
 			// does the path know the command has a response layer?
@@ -319,43 +320,60 @@ func checkC17(c *Ctx, r *Report) {
 	for _, sc := range c.sendCommandImpls() {
 		name := c.FnName(sc)
 		r.Fn(name)
+		// the exchange: the call of the function that runs a sending operation under backoff.Retry
+		starters := map[*ssa.Function]bool{}
+		for _, s := range c.SendClosures() {
+			starters[s.Parent] = true
+		}
 		var exch *ssa.Call
 		allInstrs(sc, false, func(in ssa.Instruction) {
 			if call, ok := in.(*ssa.Call); ok {
-				if f := call.Call.StaticCallee(); f != nil && c.reachesSend(f) {
+				if f := call.Call.StaticCallee(); f != nil && starters[f] {
 					exch = call
 				}
 			}
 		})
 		ok := exch != nil
 		if ok {
+			// per feasible path: every read of the decoded completion code comes after the exchange
+			// of this call, on a path that found the exchange's error nil
 			n := 0
-			allInstrs(sc, false, func(in ssa.Instruction) {
-				if ld, isLd := in.(*ssa.UnOp); isLd && ld.Op == token.MUL && strings.HasSuffix(apOf(ld.X).SelString(), "CompletionCode") {
-					aps := viewAPs(sc, ld.X)
-					isCode := len(aps) > 0
-					for _, ap := range aps {
-						isCode = isCode && strings.HasSuffix(ap.SelString(), fMsg+".CompletionCode")
+			complete := enumPaths(sc, 2, 20000, func(p CPath) {
+				occs := p.OccsPos()
+				exAt := -1
+				for i, oc := range occs {
+					if oc.In == ssa.Instruction(exch) {
+						exAt = i
 					}
-					if !isCode {
-						return
+				}
+				rels := p.relationsPos(occs)
+				for i, oc := range occs {
+					ld, isLd := oc.In.(*ssa.UnOp)
+					if !isLd || ld.Op != token.MUL || !strings.HasSuffix(p.Upto(oc.Seg).APIn(oc.Ctx, ld.X).SelString(), fMsg+".CompletionCode") {
+						continue
 					}
 					n++
-					if !mustPrecede(sc, exch, ld) {
+					if exAt < 0 || i < exAt {
 						ok = false
+						continue
 					}
-					// behind err == nil of the exchange
-					for _, ifi := range ifsOf(sc) {
-						op, x, y, _, isBin := condOf(ifi.Cond)
-						if isBin && op == token.NEQ && x == ssa.Value(exch) && isNilConst(y) {
-							if reachAvoiding(sc, nil, nil, map[edge]bool{{ifi.Block(), ifi.Block().Succs[1]}: true})[ld.Block()] {
-								ok = false
+					found := false
+					for _, rel := range rels {
+						if rel.At > i || rel.At < exAt || rel.Op != token.EQL {
+							continue
+						}
+						for _, pr := range [][2]ssa.Value{{rel.X, rel.Y}, {rel.Y, rel.X}} {
+							if isNilConst(pr[1]) && p.Upto(occs[rel.At].Seg).resolvesThrough(rel.Ctx, pr[0], exch) {
+								found = true
 							}
 						}
 					}
+					if !found {
+						ok = false
+					}
 				}
 			})
-			ok = ok && n > 0
+			ok = ok && n > 0 && complete
 		}
 		var pos token.Pos = sc.Pos()
 		if exch != nil {
